@@ -21,3 +21,46 @@ package internal
 //@   loop loop#1 invariant[C13] forall i int :: 0 <= i && i <= rangeindex ==> *co.Peer[i] == old(*p)
 //@   ensures[C13] every_peer_target_set: forall i int :: 0 <= i && i < len(co.Peer) ==> *co.Peer[i] == old(*p)
 //@   modifies mem("peer.Peer")
+
+// ---- misc.go ----
+//
+//@ func TranslateContextError
+//@   ensures[C04] deadline: err == context.DeadlineExceeded ==> is_status_err(result) && err_status_code(result) == 4
+//@   ensures[C04] canceled: err == context.Canceled ==> is_status_err(result) && err_status_code(result) == 1
+//@   ensures[C04,C02] other_errors_unchanged: err != context.DeadlineExceeded && err != context.Canceled ==> result == err
+//@   ensures[C04] nil_iff_nil: (result == nil) <==> (err == nil)
+//@   modifies nothing
+//
+//@ func FindUnaryMethod
+//@   loop loop#1 invariant[C12] no_earlier_match: forall j int :: 0 <= j && j <= rangeindex ==> methods[j].MethodName != methodName
+//@   ensures[C12] absent_means_nil: result == nil ==> (forall j int :: 0 <= j && j < len(methods) ==> methods[j].MethodName != methodName)
+//@   ensures[C12] found_is_named: result != nil ==> result.MethodName == methodName
+//@   ensures[C12] found_is_first_element: result != nil ==> 0 <= i && i < len(methods) && result == &methods[i] && (forall j int :: 0 <= j && j < i ==> methods[j].MethodName != methodName)
+//@   modifies nothing
+//
+//@ func FindStreamingMethod
+//@   loop loop#1 invariant[C12] no_earlier_match: forall j int :: 0 <= j && j <= rangeindex ==> methods[j].StreamName != methodName
+//@   ensures[C12] absent_means_nil: result == nil ==> (forall j int :: 0 <= j && j < len(methods) ==> methods[j].StreamName != methodName)
+//@   ensures[C12] found_is_named: result != nil ==> result.StreamName == methodName
+//@   ensures[C12] found_is_first_element: result != nil ==> 0 <= i && i < len(methods) && result == &methods[i] && (forall j int :: 0 <= j && j < i ==> methods[j].StreamName != methodName)
+//@   modifies nothing
+
+// ---- call_options.go: per-RPC credentials (C13) ----
+//
+//@ define RTS = "credentials.PerRPCCredentials.RequireTransportSecurity"
+//@ func ApplyPerRPCCreds
+//@   ensures[C13] no_creds_passthrough: old(copts.Creds) == nil ==> result0 == ctx && result1 == nil && !called("credentials.PerRPCCredentials.GetRequestMetadata") && !called("credentials.PerRPCCredentials.RequireTransportSecurity")
+//@   ensures[C13] insecure_transport_refused: called("credentials.PerRPCCredentials.RequireTransportSecurity") && lastresult("credentials.PerRPCCredentials.RequireTransportSecurity") && !isChannelSecure ==> result1 != nil && !called("credentials.PerRPCCredentials.GetRequestMetadata")
+//@   ensures[C13] security_always_consulted: old(copts.Creds) != nil ==> called("credentials.PerRPCCredentials.RequireTransportSecurity")
+//@   assert_call[C13] credentials.PerRPCCredentials.GetRequestMetadata : security_checked_first: called("credentials.PerRPCCredentials.RequireTransportSecurity") && (!lastresult("credentials.PerRPCCredentials.RequireTransportSecurity") || isChannelSecure)
+//@   assert_call[C13] credentials.PerRPCCredentials.GetRequestMetadata : asked_for_this_call: arg0 == copts.Creds && arg1 == ctx && len(arg2) == 1 && arg2[0] == uri
+//@   ensures[C13] creds_error_returned: called("credentials.PerRPCCredentials.GetRequestMetadata") && lastresult("credentials.PerRPCCredentials.GetRequestMetadata", 1) != nil ==> result1 == lastresult("credentials.PerRPCCredentials.GetRequestMetadata", 1)
+//@   ensures[C13] empty_metadata_keeps_context: result1 == nil && called("credentials.PerRPCCredentials.GetRequestMetadata") && len(lastresult("credentials.PerRPCCredentials.GetRequestMetadata", 0)) == 0 ==> result0 == ctx
+//@   ensures[C13] metadata_attached: result1 == nil && called("credentials.PerRPCCredentials.GetRequestMetadata") && len(lastresult("credentials.PerRPCCredentials.GetRequestMetadata", 0)) > 0 ==> called("metadata.NewOutgoingContext") && result0 == lastresult("metadata.NewOutgoingContext")
+//@   assert_call[C13] metadata.NewOutgoingContext : onto_callers_context: arg0 == ctx
+//@   assert_call[C13] metadata.NewOutgoingContext : merged_with_callers_metadata: lastresult("metadata.FromOutgoingContext", 1) ==> called("metadata.Join") && arg1 == lastresult("metadata.Join")
+//@   assert_call[C13] metadata.NewOutgoingContext : creds_only_when_caller_has_none: !lastresult("metadata.FromOutgoingContext", 1) ==> arg1 == lastresult("metadata.New")
+//@   assert_call[C13] metadata.Join : callers_values_first_then_creds: len(arg0) == 2 && arg0[0] == lastresult("metadata.FromOutgoingContext", 0) && arg0[1] == lastresult("metadata.New")
+//@   assert_call[C13] metadata.New : from_credentials: arg0 == lastresult("credentials.PerRPCCredentials.GetRequestMetadata", 0)
+//@   assert_call[C13] metadata.FromOutgoingContext : of_callers_context: arg0 == ctx
+//@   modifies external
